@@ -105,6 +105,14 @@ def jobs(tier: str, seed: int) -> list[dict]:
                             params=dict(code='NT', n=2, depth=0, mode='T', deck=deck, trim=trim,
                                         ante_kind='per-player', part=part),
                             budget_s=B, must_cover=mc, prio=4))
+    # (c) all-in cascade with SYMBOLIC hand strengths: every winner / tie / odd-chip pattern of push_chips
+    for k, part in enumerate(weak_orders(['s0', 's1', 's2'])):
+        if tier == 'quick' and k not in (0, 3, 6, 9, 12):
+            continue
+        out.append(dict(name=f'c/allin/n3/hilo/symbolic-strengths/w{k}', module='harness.c02', fn='h_showdown',
+                        params=dict(n=3, depth=0, shape='allin', hilo=True, deck=deck, levels=2, lo_levels=1,
+                                    part=part, conserve=True),
+                        budget_s=B, must_cover=['terminal'], prio=7))
     if tier == 'thorough':
         for code in button + stud:
             for k, part in enumerate(weak_orders(['s0', 's1', 's2'])):
